@@ -12,6 +12,7 @@ mod rng;
 mod selfcheck;
 mod sjis;
 mod spec;
+mod stress;
 mod tarx;
 mod view;
 
@@ -85,6 +86,7 @@ fn main() {
 		}
 		"classify" => {
 			// classify <file>: judge one input with the C06 monitors (all modes + .slpp reader)
+			driver::limit_address_space(2 << 30);
 			std::process::exit(monitors::c06::classify(std::path::Path::new(&args[2])));
 		}
 		"dump-seeds" => {
